@@ -27,6 +27,7 @@ var (
 	ErrEncodingInvalidVersion  = errors.New("not version 0 of 6f")
 	ErrEncodingInvalidChecksum = errors.New("invalid checksum")
 	ErrEncodingChecksumFailed  = errors.New("checksum failed")
+	ErrEncodingLeadingZeros    = errors.New("leading '1's do not match the leading zero bytes")
 	ErrTextNoBIP76             = errors.New("text did not match the bip276 format")
 )
 
